@@ -323,8 +323,71 @@ def run_encoder(prop, case, enc, emit, col, rk, rk_dv, rnd, cap):
         except Exception as e:  # noqa
             emit('fast_valid_vector_changed', {'exc': D.exc_info(e)}, where={'exc': type(e).__name__})
     if enc == 'COMPLETE' and prop in ('C04', 'C07'):
-        check_enumeration(prop, gp, b, case, emit, col, rk_dv, corrected, dvs, kinds)
+        n0 = len(col.violations)
+        E = check_enumeration(prop, gp, b, case, emit, col, rk_dv, corrected, dvs, kinds)
+        if prop == 'C04' and E is not None and len(col.violations) == n0 and len(E[0]) >= 2:
+            check_fixed_enumeration(gp, emit, col, E[0], E[1], dvs, kinds,
+                                    gen.rng_for('c04fix', S.digest(case.spec)))
     return res
+
+
+def check_fixed_enumeration(gp, emit, col, rows, acts, dvs, kinds, rnd, max_fix=4):
+    """C04 'with fixed variables': the enumeration of the restricted problem is exactly the slice of the (already
+    verified) full enumeration in which the fixed variable is active at the fixed value, plus possibly designs in which
+    it is inactive; one row each; the count with_fixed agrees."""
+    cand = [(i, v) for i, dv in enumerate(dvs) if kinds[i] != 'conn' and dv.is_discrete for v in range(dv.n_opts)]
+    rnd.shuffle(cand)
+    E = list(zip(rows, acts))
+    for i, v in cand[:max_fix]:
+        dv = dvs[i]
+        col.count('monitor_fixed_enumerations')
+        try:
+            gp.fix_des_var(dv, v)
+        except Exception as e:  # noqa
+            info = D.exc_info(e)
+            emit('enumeration_exception', {'exc': info, 'stage': 'fix', 'var': dv.name, 'value': v},
+                 where={'exc': info['type'], 'site': info['site'], 'stage': 'fix'})
+            continue
+        try:
+            res = gp.get_all_discrete_x()
+            if res is None:
+                col.count('fixed_enumeration_none')
+                continue
+            Xf, Af = res
+            got_l = [(tuple(D.to_list(r)), tuple(bool(x) for x in a)) for r, a in zip(Xf, Af)]
+            got = set(got_l)
+
+            def drop(r):
+                return tuple(x for j, x in enumerate(r) if j != i)
+            upper = {(drop(r), drop(a)) for r, a in E if (not a[i]) or r[i] == v}
+            lower = {(drop(r), drop(a)) for r, a in E if a[i] and r[i] == v}
+            if lower:
+                col.count('fixed_enumerations_nonempty_slice')
+            if len(got) != len(got_l):
+                emit('duplicate_rows', {'fixed': [dv.name, v], 'n_rows': len(got_l), 'n_distinct': len(got)},
+                     where={'stage': 'fixed'})
+            if got - upper:
+                emit('enumeration_extra_architectures', {'fixed': [dv.name, v], 'n_extra': len(got - upper),
+                                                         'n_rows': len(got), 'example_row': sorted(got - upper)[0]},
+                     where={'stage': 'fixed'})
+            if lower - got:
+                emit('enumeration_missing_architectures', {'fixed': [dv.name, v], 'n_missing': len(lower - got),
+                                                           'n_rows': len(got), 'n_slice': len(lower),
+                                                           'example_row': sorted(lower - got)[0]},
+                     where={'stage': 'fixed'})
+            n_fixed = gp.get_n_valid_designs(with_fixed=True)
+            if n_fixed != len(got_l):
+                emit('n_valid_mismatch', {'fixed': [dv.name, v], 'n_valid_with_fixed': int(n_fixed),
+                                          'n_rows': len(got_l)}, where={'stage': 'fixed'})
+        except Exception as e:  # noqa
+            info = D.exc_info(e)
+            emit('enumeration_exception', {'exc': info, 'stage': 'fixed', 'var': dv.name, 'value': v},
+                 where={'exc': info['type'], 'site': info['site'], 'stage': 'fixed'})
+        finally:
+            try:
+                gp.free_des_var(dv)
+            except Exception:  # noqa
+                return
 
 
 def kinds_of(dvs, sel_key_of, conn_id_of):
@@ -479,6 +542,7 @@ def check_enumeration(prop, gp, b, case, emit, col, rk_dv, corrected, dvs, kinds
         info = D.exc_info(e)
         emit('enumeration_exception', {'exc': info, 'stage': 'counts'}, where={'exc': info['type'],
                                                                                 'site': info['site']})
+    return (rows, acts) if n_dec == len(rows) else None
 
 
 def worker(task, col):
@@ -515,7 +579,8 @@ RULES = {
            'option; connection sub-vector decodes through the manager to the CONNECTS edges; DV nodes carry the '
            'vector value; corrected vector -> architecture injective',
     'C04': 'complete encoder: get_all_discrete_x rows vs reference architectures (set equality, one row each), '
-           'row fixed points, counts, imputation ratio, statistics',
+           'row fixed points, counts, imputation ratio, statistics; then up to 4 (variable, value) fixes per case: restricted '
+           'enumeration == slice of the full one (one row each, with_fixed count)',
     'C07': 'active => node exists; inactive => canonical value; unconditional => always active; activeness equal '
            'across enumeration / create=True / create=False / raw-vector paths',
     'C14': 'fast encoder: every vector decodes to a reference architecture; declared space covers the reference '
